@@ -153,3 +153,16 @@ package explain
 //@     invariant kept:  keptHdr(pb, pb.NbClauses)
 //@     invariant units: len(pb.units) == old(len(pb.units)) && forall(v, 0, len(pb.units), pb.units[v] == old(pb.units[v]))
 //@     invariant cons:  old(agreesU(A, pb.units)) && old(orig(pb, A)) ==> lines(pb, A)
+
+// ---------------------------------------------------------------- ownership of the returned subset (C07, C08)
+
+// UnsatSubset: the problem handed back never shares the caller's clause list: the MUS methods
+// overwrite entries of the subset's list (relaxation literals, in-place filters), which must not
+// show through in the caller's problem ("the caller's problem is left unchanged").
+//@ func (*Problem).UnsatSubset
+//@   requires entry: entryPb(pb)
+//@   modifies pb.Clauses, pb.Clauses[*], pb.tagged, pb.units, pb.units[*]
+//@   ensures  owned: subset != nil && len(pb.Clauses) > 0 ==> arr(subset.Clauses) != arr(pb.Clauses)
+//@   loop 1
+//@     modifies subset.Clauses, subset.Clauses[*], subset.NbClauses
+//@     invariant own: subset != nil && fresh(subset) && grown(subset.Clauses) && pb.Clauses == entry1(pb.Clauses)
